@@ -187,3 +187,42 @@ PROPS["C35"] = {
     "trusted_base": [],
     "not_covered": ["a fresh block's free list (FreeListAllocator::init_block touches six side-metadata tables of a live Block): not brought under contract"],
 }
+
+
+def scan_c38_single_writer(repo):
+    """`current_heap_pages` is written only in MemBalancerTrigger::new (initialiser) and compute_new_heap_limit."""
+    import re, os
+    src = open(os.path.join(repo, "src/util/heap/gc_trigger.rs")).read()
+    src = src.split("pub mod verif_hooks")[0]
+    writes = [m.start() for m in re.finditer(r"current_heap_pages\s*\.\s*(store|swap|fetch_\w+|compare_exchange\w*)\s*\(", src)]
+    ok = True
+    where = []
+    for w in writes:
+        fn = re.findall(r"fn\s+(\w+)", src[:w])[-1]
+        where.append(fn)
+        if fn != "compute_new_heap_limit":
+            ok = False
+    return ok, "writers of current_heap_pages: %s (must be compute_new_heap_limit only)" % (where,)
+
+
+PROPS["C38"] = {
+    "level": "proof",
+    "anchors": [("compute_new_heap_limit", "src/util/heap/gc_trigger.rs"), ("MemBalancerTrigger", "src/util/heap/gc_trigger.rs"),
+                ("FixedHeapSizeTrigger", "src/util/heap/gc_trigger.rs")],
+    "kani": {"prefix": "c38_", "files": ["c38_heapsize.rs"], "timeout_quick": 900, "timeout_thorough": 2400},
+    "scans": [scan_c38_single_writer],
+    "functions": ["MemBalancerTrigger::new", "MemBalancerTrigger::compute_new_heap_limit", "MemBalancerTrigger::{on_pending_allocation, "
+                  "get_current_heap_size_in_pages, get_max_heap_size_in_pages, can_heap_size_grow}", "FixedHeapSizeTrigger getters"],
+    "explanation": "Invariant min <= current <= max: established by new (for all min <= max) and preserved by compute_new_heap_limit for "
+                   "all live/extra/pending page counts <= 2^36 and all statistics in their physical ranges including exact zeros "
+                   "(IEEE-754 doubles as modelled by CBMC, including sqrt), with no arithmetic failure; a mechanical scan checks that "
+                   "no other function writes current_heap_pages, so the invariant holds after every history (induction). Loop-free: complete.",
+    "bounds": ["none (loop-free); numeric ranges are preconditions, see assumptions"],
+    "assumptions": ["min <= max (enforced by GCTriggerSelector::validate at option parsing)",
+                    "page counts (live, extra reserve, pending) <= 2^36; page statistics in {0} u [1, 2^36]; durations in {0} u [1e-6, 1e6] s: "
+                    "outside these ranges `live + e as usize + extra + pending` can overflow (debug panic; wraps in release, where clamp still "
+                    "restores the bounds)",
+                    "single-writer frame condition checked by a source scan (an assumption-level check, not a proof)"],
+    "trusted_base": ["kani::stub of std::time::Instant::now (time stamps are not read by the verified arithmetic)", "CBMC's IEEE-754 model incl. sqrt"],
+    "not_covered": ["GC callbacks on_gc_start/release/end (need &'static MMTK): they only feed statistics, whose every value is covered by the symbolic stats"],
+}
